@@ -223,6 +223,7 @@ def run(ctx):
 
     # ------------------------------------------------------------------ assert iff mismatch
     check_assert_iff(ctx)
+    check_force_honoured(ctx)
     me = None
     for c in classes.all:
         if c.name == "MismatchError" and c.module.name == "testtools.matchers._impl":
@@ -356,6 +357,27 @@ class _VerdictDomain(DefaultDomain):
 
     def raised_value(self, stmt, value, st, fr):
         return ("raised", norm(stmt.exc)[:30])
+
+
+def check_force_honoured(ctx):
+    """The runner's half of "expectThat makes the test fail once it has finished": on the
+    abstract run of RunTest (the same model C01/C03 use), whenever force_failure is set --
+    or may be set, because no stage examined it after the last piece of user code ran --
+    the single outcome is a failing one."""
+    from . import runmodel
+    from .common import RUNTEST
+    ctx.rule("R-FORCE-HONOURED", "a set force_failure flag makes every finished run unsuccessful, whatever the stages raise")
+    rt = ctx.classes.get(RUNTEST, "RunTest")
+    rc = own_method(ctx, RUNTEST, "RunTest", "_run_core")
+    kres, _ = runmodel.analyse_kinds(ctx, rt, kinds=("bad", "soft") if ctx.tier == "quick" else runmodel.KINDS)
+    n_set = 0
+    for label, suffix, ok, r in runmodel.force_verdicts(kres):
+        n_set += label.startswith("force_failure set")
+        ctx.check("R-FORCE-HONOURED", label, rc, ok,
+                  "an expectThat mismatch does not make the finished test fail on this path: the run ends with a success, a skip or an expected failure",
+                  path=runmodel.fmt_log(r.state), construct=f"{RUNTEST}:RunTest._run_core::{suffix}")
+    ctx.check("R-FORCE-HONOURED", "the abstract run reads force_failure and finds it set on some path", rc, n_set >= 1,
+              "no path of the run examines case.force_failure", construct=f"{RUNTEST}:RunTest._run_core::force-read")
 
 
 def check_assert_iff(ctx):
